@@ -178,6 +178,150 @@ def opt(x):
     return "N" if x is None else hx(x)
 
 
+UNKNOWN_RWS = [b"x-future:abc", b"x-tahoe-future-test-writeable:xyz", b"lafs://from_the_future_rw", b"URI:FOO:bar"]
+
+
+def by_kind(objs):
+    d = {}
+    for c in objs:
+        fd, tag = U.tag_of(c)
+        d.setdefault((tag, fd == "D"), []).append(c)
+    return d
+
+
+def has_write_authority(node):
+    """a node gives write authority if it is a known node that is not read-only, or any node exposing a write uri"""
+    if type(node).__name__ == "UnknownNode":
+        return node.get_write_uri() is not None
+    if not hasattr(node, "is_readonly"):        # CiphertextFileNode
+        return False
+    return (not node.is_readonly()) or node.get_write_uri() is not None
+
+
+def marking(ro):
+    return "imm-prefixed" if ro.startswith(b"imm.") else ("ro-prefixed" if ro.startswith(b"ro.") else "unprefixed")
+
+
+class RoSlotContext:
+    """real directory nodes (stub grid) to push a child entry through pack -> unpack as a reader would see it"""
+
+    def __init__(self, rng):
+        from allmydata import uri
+        from allmydata.nodemaker import NodeMaker
+        self.mk = lambda: NodeMaker(_SB(), None, None, None, _Term(), {"k": 3, "n": 10}, None, None)
+        wcap = uri.DirectoryURI(uri.WriteableSSKFileURI(U.rand_bytes(rng, 16), U.rand_bytes(rng, 32)))
+        icap = uri.ImmutableDirectoryURI(uri.CHKFileURI(U.rand_bytes(rng, 16), U.rand_bytes(rng, 32), 3, 10, 999))
+        self.dw = self.mk().create_from_cap(wcap.to_string())                    # the linker: holds the directory write cap
+        self.dr = self.mk().create_from_cap(wcap.get_readonly().to_string())     # the lister: holds only the read cap
+        self.di_w = self.mk().create_from_cap(icap.to_string())                  # immutable directory being built
+        self.di_r = self.mk().create_from_cap(icap.to_string())
+
+
+def monitor_ro_slot(ctx, rc, rw, ro, deep, case):
+    """Statement: a cap presented in a read-only position (the ro_uri slot, with or without ro./imm.) never yields
+    a node with write authority for someone who is only shown that position — directly, through what
+    _pack_normalized_children stores, and through pack -> unpack -> create_from_cap(None, stored_ro)."""
+    from allmydata import dirnode
+    from allmydata.unknown import UnknownNode, strip_prefix_for_ro
+    from allmydata.interfaces import CapConstraintError
+    if not ro:
+        return
+
+    def report(path, child_unknown, extra=None):
+        m = marking(ro)
+        if m == "unprefixed" and child_unknown:
+            sig = "ro-slot-unprefixed-writecap-in-unknownnode"
+        else:
+            sig = "ro-slot-yields-writecap:%s:%s" % (path, m)
+        ctx.violation("cap given in the ro_uri slot (%s) yields write authority via %s" % (m, path),
+                      dict(case, path=path), sig, extra)
+
+    # (1) UnknownNode directly, and what a directory would store for it
+    n = UnknownNode(rw, ro, deep_immutable=deep)
+    if n.error is None and n.get_readonly_uri():
+        stored = strip_prefix_for_ro(n.get_readonly_uri(), deep)
+        for path, capstr in (("unknownnode-ro_uri", n.get_readonly_uri()), ("unknownnode-stored-ro", stored)):
+            back = rc.mk().create_from_cap(None, capstr, deep_immutable=deep)
+            if has_write_authority(back):
+                report(path, True)
+    # (2) the linker's create_from_cap + raise_error (= dirnode.set_uri), pack, then unpack by a reader
+    dw, dr = (rc.di_w, rc.di_r) if deep else (rc.dw, rc.dr)
+    try:
+        child = dw._create_and_validate_node(rw, ro, u"child")
+        packed = dirnode._pack_normalized_children({u"child": (child, {})}, None if deep else dw._node.get_writekey(),
+                                                   deep_immutable=deep)
+    except CapConstraintError:
+        ctx.count("ro-slot:refused")
+        return
+    except (AssertionError, AttributeError):
+        ctx.count("ro-slot:not-packable")   # verify-cap nodes (CiphertextFileNode) are not IFilesystemNode: pack asserts
+        return
+    ctx.count("ro-slot:linked")
+    try:
+        children = dr._unpack_contents(packed)
+    except CapConstraintError:
+        return
+    except (AssertionError, AttributeError):
+        ctx.count("ro-slot:reader-crash-on-verify-cap-node")   # CiphertextFileNode lacks the IFilesystemNode methods
+        return
+    if u"child" not in children:      # the reader dropped an entry it could not accept
+        ctx.count("ro-slot:dropped-by-reader")
+        return
+    got, _md = children[u"child"]
+    if has_write_authority(got) or (deep and type(got).__name__ != "UnknownNode" and got.is_mutable()):
+        # a known rw cap in the rw slot is diminished by the linker's node (get_readonly_uri); whatever reaches
+        # the reader came from the ro position
+        report("pack-unpack", type(child).__name__ == "UnknownNode", {"reader_node": show_node(got)})
+
+
+def run_grid(ctx):
+    """End to end on the in-process grid: a client with the directory write-cap links children with set_uri
+    (every rw/ro/prefix combination around a real mutable file's write-cap), a second client lists the
+    directory through its READ-cap: no child may expose write authority."""
+    import grid
+    from allmydata.interfaces import CapConstraintError
+    from allmydata.mutable.publish import MutableData
+    with grid.Runtime(seed=ctx.seed, policy="fifo") as rt:
+        g = grid.Grid(grid.fresh_dir("c16"), rt, num_servers=2, num_clients=2, k=1, happy=1, n=1)
+        try:
+            alice, bob = g.clients
+            target = rt.wait(alice.create_mutable_file(MutableData(b"original")))
+            wcap, rcap = target.get_write_uri(), target.get_readonly_uri()
+            d = rt.wait(alice.create_dirnode())
+            combos = []
+            for rw in (None, U.UNKNOWN_RW, wcap):
+                for ro in (None, wcap, b"ro." + wcap, b"imm." + wcap, rcap, b"ro." + rcap, b"imm." + rcap):
+                    if rw or ro:
+                        combos.append((rw, ro))
+            linked = {}
+            for i, (rw, ro) in enumerate(combos):
+                name = u"c%d" % i
+                try:
+                    rt.wait(d.set_uri(name, rw, ro))
+                    linked[name] = (rw, ro)
+                    ctx.count("grid:linked")
+                except (CapConstraintError, AssertionError):
+                    ctx.count("grid:refused")
+            d_ro = bob.create_node_from_uri(d.get_readonly_uri())
+            children = rt.wait(d_ro.list())
+            for name, (child, _md) in sorted(children.items()):
+                rw, ro = linked[name]
+                case = {"rw": opt(rw), "ro": opt(ro), "deep": False, "path": "grid-set_uri-list"}
+                ctx.case(("grid", rw, ro))
+                if has_write_authority(child):
+                    m = marking(ro or b"")
+                    if ro and m == "unprefixed" and rw == U.UNKNOWN_RW:
+                        sig = "ro-slot-unprefixed-writecap-in-unknownnode"
+                    else:
+                        sig = "ro-slot-yields-writecap:grid-set_uri-list:%s" % m
+                    ctx.violation("holder of only the directory read-cap got a node with write authority for child %s" % name,
+                                  case, sig, {"reader_node": show_node(child)})
+        finally:
+            g.close()
+            import shutil
+            shutil.rmtree(g.basedir, ignore_errors=True)
+
+
 def show_node(node):
     if type(node).__name__ == "UnknownNode":
         return "U " + show_unknown(node)
@@ -326,17 +470,32 @@ def run(ctx):
     lines, impl, cases = [], [], []
     pool = base_strings
     n_pairs = ctx.budget(1500, 60000)
+
+    def pick():
+        r = rng.random()
+        if r < 0.25:
+            return None
+        if r < 0.3:
+            return b""
+        return rng.choice([b"", b"", b"ro.", b"imm.", b"ro.imm."]) + rng.choice(pool)
+    pairs = []
+    # structured: both slots filled — an rw_uri in a format this client does not know next to a known cap of every
+    # kind in the ro slot, unprefixed / ro. / imm.; and the same cap alone in either slot
+    per = ctx.budget(2, 40)
+    for (tag, is_dir), cs in sorted(by_kind(objs).items()):
+        for c in cs[:per]:
+            s = c.to_string()
+            for pre in (b"", b"ro.", b"imm."):
+                for rw in (UNKNOWN_RWS if rng.random() < 0.5 else [rng.choice(UNKNOWN_RWS)]) + [None]:
+                    pairs.append((rw, pre + s))
+                pairs.append((pre + s, None))
     for _ in range(n_pairs):
-        def pick():
-            r = rng.random()
-            if r < 0.25:
-                return None
-            if r < 0.3:
-                return b""
-            return rng.choice([b"", b"", b"ro.", b"imm.", b"ro.imm."]) + rng.choice(pool)
-        rw, ro = pick(), pick()
+        pairs.append((pick(), pick()))
+    ro_ctx = RoSlotContext(rng)
+    for (rw, ro) in pairs:
         for deep in (False, True):
             case = {"rw": opt(rw), "ro": opt(ro), "deep": deep}
+            monitor_ro_slot(ctx, ro_ctx, rw, ro, deep, case)
             n = UnknownNode(rw, ro, deep_immutable=deep)
             # monitor: unknown caps keep / strengthen their prefix
             if n.error is not None and (n.rw_uri is not None or n.ro_uri is not None):
@@ -383,6 +542,7 @@ def run(ctx):
             ctx.count("cfc:" + out.split()[0] + (":" + out.split()[1] if out[0] == "K" else ""))
     ctx.compare("UnknownNode(rw, ro, deep) and create_from_cap(w, r, deep)", cases, impl, ctx.model(lines))
     run_histories(ctx, objs)
+    run_grid(ctx)
     ctx.sample({"cap": U.describe(objs[0]), "att": impl_att(objs[0])})
 
 
